@@ -99,7 +99,7 @@ def _mk_log_fn(logger, module):
     return ns["f"]
 
 
-def emulated_fork(s, sinks):
+def emulated_fork(s, sinks, streams=()):
     """os.fork() as the at-fork hooks see it: the REAL acquire_locks / release_locks of
     loguru._locks_machinery run in the calling thread; at the fork point the child's memory is inspected:
     every registered lock must be owned by the forking thread (after_in_child releases exactly those)
@@ -116,6 +116,11 @@ def emulated_fork(s, sinks):
     for hid, snk in sinks.items():
         if snk.busy is not None:
             bad.append("sink of handler %d is in the middle of a write (by %r) at the fork point" % (hid, snk.busy))
+    for st in streams:
+        # output of a WORKER thread (the enqueue writer) is promised to happen under the fork-protected queue lock
+        if st.busy is not None and st.busy != me and st.busy in s.daemons:
+            bad.append("worker thread %r is in the middle of writing an error report to sys.stderr at the fork point"
+                       % (st.busy,))
     lm.release_locks()
     return bad or "ok"
 
